@@ -147,6 +147,18 @@ extern "C" void cbmc_main() {
             }
         }
     }
+#if MODE == 3
+    // an earlier update registered one more class (record r3); the current one does not
+    {
+        r3.nids = 1; r3.ids[0] = nondet_u64();
+        VERIF_ASSUME(r3.ids[0] != invalid_type);
+        for (int j = 0; j < 2 * NCLS; j++) if (j < nall) VERIF_ASSUME(all[j] != r3.ids[0]);
+        // records 0..n-1 then r3: iterate with an iterator that maps position NCLS to r3
+        struct It2 : It { Rec& operator*() const { return i == NCLS ? r3 : *rec(i); } Rec* operator->() const { return i == NCLS ? &r3 : rec(i); } };
+        It2 b2; b2.i = 0; It2 e2; e2.i = NCLS + 1;
+        P::publish_vptrs(b2, e2);
+    }
+#endif
     P::publish_vptrs(It{0}, It{n});
     // normal return: installed hash is perfect on the registered ids
     verif_assert(got_hash_search_error == 0 && got_unknown_class == 0 && got_other_error == 0, 2);
@@ -173,6 +185,16 @@ extern "C" void cbmc_main() {
     }
     verif_out(P::hash_length);
     if (n >= 2) VERIF_COVER(903);
+#if MODE == 3
+    // the id that only the earlier update knew
+    lookup_id = r3.ids[0];
+    in_lookup = true;
+    {
+        type_id h3 = P::hash_type_id(lookup_id);
+        verif_out(h3);
+        verif_assert(0, 10);   // an id that is no longer registered was accepted
+    }
+#endif
 #if MODE == 2
     // arbitrary unregistered id
     lookup_id = nondet_u64();
